@@ -71,7 +71,7 @@ def _corruptions(sessions):
         ("the application wrote one byte more than was sent", lambda L, k, e: e["e"] == "reset" and len(e["msgs"]) > 0,
          lambda L, k: L[0]["msgs"][-1].update(size=L[0]["msgs"][-1]["size"] + 1), False),
         ("a message was never sent", lambda L, k, e: e["e"] == "reset" and len(e["msgs"]) > 0,
-         lambda L, k: L[0]["msgs"].append({"t": 1, "size": 0, "z": False}), False),
+         lambda L, k: L[0]["msgs"].append({"t": 1, "size": 0, "z": False, "nl": False}), False),
         ("control frame of 126 bytes", lambda L, k, e: isf(e) and e["op"] >= 8, lambda L, k: L[k].update(len=126, form=16), True),
         ("control frame without FIN", lambda L, k, e: isf(e) and e["op"] >= 8, lambda L, k: L[k].update(fin=0), True),
         ("RSV3 set", lambda L, k, e: isf(e), lambda L, k: L[k].update(r23=1), True),
@@ -269,8 +269,8 @@ def run(ctx):
             raise vlib.Broken("rejected session %d belongs to no case" % s)
         frame = all_lines[line - 1].strip()
         head = all_lines[first_line[s] - 1].strip()
-        what = ("frame stream rejected by WsWire (trace line %d of session %d): record %s breaks %s; session %s"
-                % (line, s, frame, why, head[:300]))
+        what = ("WsWire rejects the recorded frame stream: %s: record %s (trace line %d, session %d); session %s"
+                % ("; ".join(why), frame, line, s, head[:300]))
         classes.setdefault(tuple(why), []).append((s, what))
     for why, lst in classes.items():
         for s, what in lst[:2]:
